@@ -22,6 +22,7 @@ pub fn run_stream(ctx: &mut Ctx, name: &str) {
 		},
 		"big" => big_stream(ctx),
 		"allocf4" => alloc_known_findings(ctx),
+		"inf" => inf_probe(ctx),
 		"ledger" => crate::ledger::ledger_stream(ctx),
 		"hist" => crate::hist::hist_stream(ctx),
 		"like" => crate::like::like_stream(ctx),
@@ -1541,4 +1542,24 @@ pub fn alloc_known_findings(ctx: &mut Ctx) {
 	if m.peak_live > PREALLOC + MEM_PER_INPUT_BYTE * bs.len() + SLACK {
 		ctx.oracle_fail("C09", format!("F4 Vec<AllSkipped>::decode: {} live bytes requested from {} input bytes claiming 2^20 zero-width elements of non-zero size", m.peak_live, bs.len()));
 	}
+}
+
+/// Finding F5 (known, C03): run in a process of its own - the plain decode does not return.
+pub fn inf_probe(ctx: &mut Ctx) {
+	use parity_scale_codec::DecodeLimit;
+	// with a depth limit the same input is rejected (C11)
+	for limit in [0u32, 1, 64, 1024] {
+		let r = crate::derived::Inf::decode_with_depth_limit(limit, &mut &[][..]);
+		if r.is_ok() {
+			ctx.oracle_fail("C11", format!("Inf::decode_with_depth_limit({}) on empty input succeeded", limit));
+		}
+	}
+	std::fs::write(&ctx.current_path, "F5 depth-limited decode of Inf rejected; calling Inf::decode(&[])\n").ok();
+	let r = std::thread::Builder::new()
+		.stack_size(1 << 20)
+		.spawn(|| crate::derived::Inf::decode(&mut &[][..]).is_ok())
+		.unwrap()
+		.join();
+	// reached only if the recursion is bounded
+	std::fs::write(&ctx.current_path, format!("F5 returned: {:?}\n", r.map_err(|_| "panic"))).ok();
 }
